@@ -27,8 +27,8 @@ from harness import pyast_wire as W
 
 META = {
     "id": "C03",
-    "technique": "Coq proof (soundness of a line-by-line model of _eval_const w.r.t. the reference Python semantics Lang/PySem.v by induction over expressions; closedness of name-free folds; a model of the constant environment across if / while / for - since the repair: child scopes with private copies of the tracked lists, names written in a block forgotten after it and, for a loop, before it - and a simulation theorem - residual program with baked-in constants = source program on every control-flow path, whatever the blocks write - by induction over nested statement blocks, with the invariant 'the environment agrees with the run-time state' exported (C03_env_agrees); the witnesses of the eight repaired stale-fold findings as positive theorems; a second simulation for the module-level split between static global initialisers, which run before setup(), and run-time assignments: hoisting is invisible because only closed constant right-hand sides are hoisted, refuted for the variant without the name-free test; (the flow-sensitive ghost environment of the earlier rounds is gone: the repaired transpiler IS flow-sensitive); function definitions: body parsed at the def with the formal arguments and every name the script binds more than once unknown, run at a later call, theorem for every argument value and whatever the module re-assigns in between; names a function body writes are volatile at module level; tuple assignment as the transpiler emits it - every right-hand side into a temporary, then the targets - proved to be Python's simultaneous assignment for every environment, arity and overlap of targets and right-hand sides via a frame lemma for the reference evaluator, the target-by-target update refuted; parse-then-emit: IR nodes that bake a list hold list objects resolved only when the whole script is parsed - theorem: every flash_pattern node owns its object, so the emitted program is the snapshot residual for every script, the aliasing shortcut refuted; calls of a function that WRITES module-level names (Lang/ConstCall.v): the names the body writes are unknown in the calling scope from the def on and no statement form - plain / augmented / tuple assignment, append / remove, assignments inside if / try / while / for at any depth - makes one known again (invariant C03_volatile_never_known, by case analysis over every statement form), hence a simulation for any number of calls with the residual body inlined at each call (C03_calls_partial); the same calling sequence inside another function's body is refuted - C03_call_in_function_refuted, a listed finding) + extracted-model correspondence with the real _eval_const/_expr_has_name/_to_c_expr/parse() + CPython and compiled-firmware oracles",
-    "level_text": "Theorems C03_* (coq/Props/C03.v) are proved for all expressions / environments about Gallina models of _eval_const, _expr_has_name, _literal_length, the folding call sites and the constant environment (len(name), flash_pattern(name), lcd.glyph bitmaps; append / remove bookkeeping; child scopes, forgetting of written names) (operator and cast tables regenerated from parser.py on every run); soundness holds inside an explicit guard of single-statement side conditions (the eight listed stale-fold findings are repaired - kind fixed - and their witnesses are replayed on the real transpiler on every run); the models are run against the real functions on generated expressions, environments and programs, and the property itself (folded value = CPython value; firmware observations = CPython observations) is evaluated on the real artefacts for every generated case inside the guard.",
+    "technique": "Coq proof (soundness of a line-by-line model of _eval_const w.r.t. the reference Python semantics Lang/PySem.v by induction over expressions; closedness of name-free folds; a model of the constant environment across if / while / for - since the repair: child scopes with private copies of the tracked lists, names written in a block forgotten after it and, for a loop, before it - and a simulation theorem - residual program with baked-in constants = source program on every control-flow path, whatever the blocks write - by induction over nested statement blocks, with the invariant 'the environment agrees with the run-time state' exported (C03_env_agrees); the witnesses of the eight repaired stale-fold findings as positive theorems; a second simulation for the module-level split between static global initialisers, which run before setup(), and run-time assignments: hoisting is invisible because only closed constant right-hand sides are hoisted, refuted for the variant without the name-free test; (the flow-sensitive ghost environment of the earlier rounds is gone: the repaired transpiler IS flow-sensitive); function definitions: body parsed at the def with the formal arguments and every name the script binds more than once unknown, run at a later call, theorem for every argument value and whatever the module re-assigns in between; names a function body writes are volatile at module level; tuple assignment as the transpiler emits it - every right-hand side into a temporary, then the targets - proved to be Python's simultaneous assignment for every environment, arity and overlap of targets and right-hand sides via a frame lemma for the reference evaluator, the target-by-target update refuted; parse-then-emit: IR nodes that bake a list hold list objects resolved only when the whole script is parsed - theorem: every flash_pattern node owns its object, so the emitted program is the snapshot residual for every script, the aliasing shortcut refuted; calls of a function that WRITES module-level names (Lang/ConstCall.v): the names the body writes are unknown in the calling scope from the def on and no statement form - plain / augmented / tuple assignment, append / remove, assignments inside if / try / while / for at any depth - makes one known again (invariant C03_volatile_never_known, by case analysis over every statement form), hence a simulation for any number of calls with the residual body inlined at each call (C03_calls_partial), for the calling sequence at module level and - since the repair of F-C03-stale-after-call-in-function: a function body forgets what the functions it calls write, at its start and after every assignment - as the body of another function (C03_call_in_function_repaired)) + extracted-model correspondence with the real _eval_const/_expr_has_name/_to_c_expr/parse() + CPython and compiled-firmware oracles",
+    "level_text": "Theorems C03_* (coq/Props/C03.v) are proved for all expressions / environments about Gallina models of _eval_const, _expr_has_name, _literal_length, the folding call sites and the constant environment (len(name), flash_pattern(name), lcd.glyph bitmaps; append / remove bookkeeping; child scopes, forgetting of written names) (operator and cast tables regenerated from parser.py on every run); soundness holds inside an explicit guard of single-statement side conditions (the nine listed stale-fold findings are repaired - kind fixed - and their witnesses are replayed on the real transpiler on every run); the models are run against the real functions on generated expressions, environments and programs, and the property itself (folded value = CPython value; firmware observations = CPython observations) is evaluated on the real artefacts for every generated case inside the guard.",
     "level_note": "Trusted: Coq kernel, the reference semantics Lang/PySem.v (validated against CPython by harness/pysem_check.py), translator harness/gen/safecasts.py, extraction, OCaml driver, the mock Arduino core + g++ as 'device', CPython 3.12 as 'what Python means'. The theorems are about the models; the correspondence bounds their distance from parser.py. Floats are exact rationals in the model: value comparisons are made only where every intermediate float is a binary64 value (measured per case).",
     "design_ref": "DESIGN.md section 4 C03",
 }
@@ -1828,7 +1828,7 @@ def layer_b(ctx, stats):
 
 
 # ------------------------------------------------------------------ layer C: calls of functions that write module names
-CALL_VARIANTS = ("module", "if", "two", "main", "if", "for", "fn", "module", "param", "module", "two", "main", "if", "module")
+CALL_VARIANTS = ("module", "if", "two", "main", "fn", "for", "fn", "module", "param", "fnfwd", "two", "main", "if", "fnvia", "module", "fn", "fnrec", "fnblk")
 LIST_LITS = ["[1, 0, 1]", "[0, 1]", "[7]", "[1, 1, 0, 255]", "[]", "[2, 0, 2]"]
 
 
@@ -1841,8 +1841,11 @@ def gen_call_program(rng, variant):
     len(name) / mon.write(name) / rarely flash_pattern(name) or a glyph row (refused: nothing to bake).  No plain
     assignment stands between the re-binding and the call.
     variant: the calling sequence at module level | inside the main loop | inside an if | inside a for body | as the
-    body of a second function ('fn': there the transpiler folds after a call - finding F-C03-stale-after-call-in-function -
-    so the caller only re-binds written names by forms that do not re-track a constant).
+    body of a second function ('fn': every re-binding form, as at module level - the region the repaired finding
+    F-C03-stale-after-call-in-function used to exclude; 'fnfwd': the writer is defined AFTER the calling function; 'fnvia':
+    the calling function reaches the writer through a third function; 'fnrec': the writer is the calling function
+    itself, recursing behind a run-time condition; 'fnblk': the calling sequence inside an if / try / for / while block of
+    the calling function's body).
     -> (program, parts) with parts = (prefix, body, first, rest) for the model (Lang/ConstCall.v)"""
     m = rng.choice(RT_N)
     prefix = [("rt", m, rng.choice(sorted(RT_PINS)))]
@@ -1887,8 +1890,6 @@ def gen_call_program(rng, variant):
         forms = ["plain", "tuple", "tuple", "tuple", "aug", "block", "block"]
         if x in LIST_N:
             forms += ["comp", "plain+append"]
-        if variant == "fn":
-            forms = ["aug"] if x not in LIST_N else ["append"]
         f = rng.choice(forms)
         lit = rng.choice(LIST_LITS) if x in LIST_N else repr(rng.choice(STRS) + rng.choice(["", "k", "kk"])) if x in STR_N else str(rng.randint(10, 31))
         if f == "append":
@@ -1986,6 +1987,24 @@ def gen_call_program(rng, variant):
         prog = prefix + [d, rng.choice([("if", seq, []), ("if", [("val", m)], seq), ("if", seq, [], "try")])]
     elif variant == "for":
         prog = prefix + [d, rng.choice([("for", LOOPV[0], seq, rng.choice([1, 2])), ("for", LOOPV[0], seq), ("while", seq)])]
+    elif variant == "fnblk":
+        # the calling sequence inside a block of the calling function's body
+        blk = rng.choice([("if", seq, []), ("if", seq, [], "try"), ("for", LOOPV[0], seq, rng.choice([1, 2])), ("while", seq)])
+        prog = prefix + [d, ("def", "us", [], [blk], "g"), ("call", "us", [], [])]
+    elif variant == "fnfwd":
+        prog = prefix + [("def", "us", [], seq, "g"), d, ("call", "us", [], [])]
+    elif variant == "fnvia":
+        via = ("def", "gm", [], [("call", "gr", [], [])], "g")
+        seq = [("call", "gm", [], []) if st[0] == "call" else st for st in seq]
+        prog = prefix + rng.choice([[d, via], [via, d]]) + [("def", "us", [], seq, "g"), ("call", "us", [], [])]
+    elif variant == "fnrec":
+        # the writer IS the calling function: def us(): <first>; if <run-time>: us(); <fold, re-bind, fold ...> - what the
+        # inner activation re-binds last is what the outer one reads after the call
+        seq = list(first) + [("if", [("call", "us", [], [])], [])]
+        for seg in rest:
+            seq += seg
+        prog = prefix + [("def", "us", [], seq, "g"), ("call", "us", [], [])]
+        return prog, (prefix, [], first, rest), variant
     else:
         prog = prefix + [d, ("def", "us", [], seq, "g"), ("call", "us", [], [])]
     return prog, (prefix, body, first, rest), variant
@@ -2003,6 +2022,21 @@ CALL_WITNESSES = {
         "prog": [("assign", "vp", "[1, 0]"), ("def", "gr", [], [("append", "vp", "1")], "g"),
                  ("def", "us", [], [("assign", "vp", "[1, 0, 1]"), ("call", "gr", [], []), ("len", "vp")], "g"),
                  ("call", "us", [], [])], "dr": [], "ar": []},
+    # the same repair: the writer defined after the calling function / reached through a third function / recursive
+    "F-C03-stale-after-forward-call": {
+        "prog": [("assign", "vp", "[1, 0]"),
+                 ("def", "us", [], [("assign", "vp", "[1, 0, 1]"), ("call", "gr", [], []), ("len", "vp")], "g"),
+                 ("def", "gr", [], [("append", "vp", "1")], "g"), ("call", "us", [], [])], "dr": [], "ar": []},
+    "F-C03-stale-after-indirect-call": {
+        "prog": [("assign", "vp", "[1, 0]"), ("def", "gr", [], [("append", "vp", "1")], "g"),
+                 ("def", "gm", [], [("call", "gr", [], [])], "g"),
+                 ("def", "us", [], [("assign", "vp", "[1, 0, 1]"), ("call", "gm", [], []), ("len", "vp")], "g"),
+                 ("call", "us", [], [])], "dr": [], "ar": []},
+    "F-C03-stale-after-recursive-call": {
+        "prog": [("assign", "vs", "'ab'"),
+                 ("def", "us", [], [("assign", "vs", "'ab'"), ("if", [("call", "us", [], [])], []), ("len", "vs"),
+                                    ("assign", "vs", "'abcd'")], "g"),
+                 ("call", "us", [], [])], "dr": [1, 0], "ar": []},
 }
 
 
@@ -2262,15 +2296,15 @@ def run(ctx: C.Ctx):
         "distinct_nontrivial": d_a + d_b + d_c,
         "programs": n_b + n_c,
         "sketches_compiled": n_sk + n_sk_c,
-        "rule": "(round 4 - layer C, calls of functions that write module-level names: module constants (lists, strings, ints) bound before the def; def gr(): appends a constant or a run-time value to a module list, `global s; s = s + 'x'`, augmented assignment, a plain constant, one tuple assignment of two globals, optionally under an if, optionally printing a length; then [re-bind a written name; gr(); fold it] 1-3 times where the re-binding is EVERY statement form - plain assignment, tuple assignment in either target order and as a swap of two strings, augmented assignment, a list comprehension over a literal range, assignment followed by append of a constant, the assignment (plain or tuple) inside if / else / try / for / while, or nothing at all (the name was forgotten at the def) - never a plain assignment between the re-binding and the call; folds: len(name), mon.write(name), rarely flash_pattern(name) / a glyph row (refused by the transpiler: nothing to bake). Variants: calling sequence at module level (model correspondence: accepted / rejected, folded constants of the calling sequence and of the body vs the real IR, model reference semantics vs CPython, model firmware vs real firmware), as the body of a second function (same correspondence with in_fn; the caller re-binds only by forms that leave the name unknown - the listed finding), inside the main loop 1-3 passes / inside an if body, an else branch or a try body / inside a for or while body run 0-3 times / two writer functions with the second def after the first statements / a writer with an int parameter (oracle only: firmware observations = CPython's; the guard is the model's calls_ok of the straight-line sequence).) (round 3 additions - A: sensor-model-shaped expressions ('HC-SR04' spellings, concatenations, names bound to model strings) through Ultrasonic(7, 8, model=<e>) and every sampled expression through Led(<e>): the folded model / pin is what the argument names at run time. B: tuple assignments at every depth and in every program family (swaps and 3-rotations of int / str names whose tracked constants differ, `x, y = <new string>, len(x)` and three-target forms whose last right-hand side reads both earlier targets, pairs of expressions where the second reads the first target; all-new pairs at module level), each followed by the fold sites that read the targets (len(target), a glyph bitmap built from the targets, append(target) + flash_pattern); flash_pattern(name) followed by append / remove of constants to the same list - in the same block, in a taken-or-not branch, in a for body - and a second flash_pattern; try / except blocks (sent to the model as `if <true>: body else: handler`; the head of every handler prints a marker so that a CPython run that enters a handler is discarded); removes that prefer a duplicated value; a family of small scenario programs built around one such fold site each; a failing program is shrunk by deleting simple statements (re-checked against the guard of the extracted model) before it is reported.) A: boundary expressions (every node kind _eval_const looks at, each operator with int/float/bool/str operands, error sources, hostile forms) x 3-5 environments (known int/float/bool/str/list/tuple, a marker, an unbound name), then seeded random expressions (harness/pyast_wire.gen_expr, depth 1-4) - each through the extracted model and the real _eval_const/_expr_has_name/_to_c_expr, a sample also through parse() at the blink/backlight/glyph/sleep call sites with the environment set up by assignments; non-trivial (A) = distinct (expression, environment) on which the real evaluator returned a value inside the guard and the CPython comparison ran. B: seeded programs (assign / augmented assign / run-time read / append / remove / len(name) / flash_pattern(name) / lcd.glyph(0, [rows]) / mon.write(name) = the run-time value of a variable; at module level a 'retune' pattern: a constant is re-assigned and then used in the FIRST assignment of another module-level name, which is then printed - the static-initialiser vs run-time-assignment split; a fifth of the programs additionally use tuple assignment, oracle only) under if, while, for and - every fourth program - the sketch's main loop `while True:` run 1-3 passes; 80 % generated inside the guard; every second guarded program is generated for the FLOW guard: tracked constants are re-assigned / appended inside branches and loop bodies, if / elif / else chains of 1-3 branches where 60 % of the branches with later siblings re-assign a tracked constant and the later siblings fold it (len / glyph row) from the snapshot, loop bodies that write tracked constants nothing folds, for-loop variables named like a tracked module constant followed by a re-assignment with a probe (a string formatted from the binder, and its length) in the body; a further quarter of the programs define a function whose formal arguments are mostly named like tracked module constants of the same type, with len(argument) / glyph / flash_pattern / len(module constant) / locals in the body, module statements between the def and 1-2 calls (some re-assigning a constant the body folds), arguments that differ from the same-named constants) with one seeded execution path each (branches taken or not, loops 0-3 times): real parse() IR vs model residual (folded constants; which module-level first assignments became static initialisers and which stayed in setup()), CPython run vs model reference semantics, firmware run (batched sketches, g++, mock core) vs model firmware outputs; non-trivial (B) = distinct program inside the guard that ran on both sides with >= 2 observations.",
+        "rule": "(round 4 - layer C, calls of functions that write module-level names: module constants (lists, strings, ints) bound before the def; def gr(): appends a constant or a run-time value to a module list, `global s; s = s + 'x'`, augmented assignment, a plain constant, one tuple assignment of two globals, optionally under an if, optionally printing a length; then [re-bind a written name; gr(); fold it] 1-3 times where the re-binding is EVERY statement form - plain assignment, tuple assignment in either target order and as a swap of two strings, augmented assignment, a list comprehension over a literal range, assignment followed by append of a constant, the assignment (plain or tuple) inside if / else / try / for / while, or nothing at all (the name was forgotten at the def) - never a plain assignment between the re-binding and the call; folds: len(name), mon.write(name), rarely flash_pattern(name) / a glyph row (refused by the transpiler: nothing to bake). Variants: calling sequence at module level (model correspondence: accepted / rejected, folded constants of the calling sequence and of the body vs the real IR, model reference semantics vs CPython, model firmware vs real firmware), as the body of a second function (same correspondence with in_fn = 1, every re-binding form - the region the repaired finding F-C03-stale-after-call-in-function used to exclude), the same with the writer defined AFTER the calling function / reached through a third function / being the calling function itself, recursing behind a run-time condition / with the calling sequence inside an if, try, for or while block of the calling function's body (oracle only), inside the main loop 1-3 passes / inside an if body, an else branch or a try body / inside a for or while body run 0-3 times / two writer functions with the second def after the first statements / a writer with an int parameter (oracle only: firmware observations = CPython's; the guard is the model's calls_ok of the straight-line sequence).) (round 3 additions - A: sensor-model-shaped expressions ('HC-SR04' spellings, concatenations, names bound to model strings) through Ultrasonic(7, 8, model=<e>) and every sampled expression through Led(<e>): the folded model / pin is what the argument names at run time. B: tuple assignments at every depth and in every program family (swaps and 3-rotations of int / str names whose tracked constants differ, `x, y = <new string>, len(x)` and three-target forms whose last right-hand side reads both earlier targets, pairs of expressions where the second reads the first target; all-new pairs at module level), each followed by the fold sites that read the targets (len(target), a glyph bitmap built from the targets, append(target) + flash_pattern); flash_pattern(name) followed by append / remove of constants to the same list - in the same block, in a taken-or-not branch, in a for body - and a second flash_pattern; try / except blocks (sent to the model as `if <true>: body else: handler`; the head of every handler prints a marker so that a CPython run that enters a handler is discarded); removes that prefer a duplicated value; a family of small scenario programs built around one such fold site each; a failing program is shrunk by deleting simple statements (re-checked against the guard of the extracted model) before it is reported.) A: boundary expressions (every node kind _eval_const looks at, each operator with int/float/bool/str operands, error sources, hostile forms) x 3-5 environments (known int/float/bool/str/list/tuple, a marker, an unbound name), then seeded random expressions (harness/pyast_wire.gen_expr, depth 1-4) - each through the extracted model and the real _eval_const/_expr_has_name/_to_c_expr, a sample also through parse() at the blink/backlight/glyph/sleep call sites with the environment set up by assignments; non-trivial (A) = distinct (expression, environment) on which the real evaluator returned a value inside the guard and the CPython comparison ran. B: seeded programs (assign / augmented assign / run-time read / append / remove / len(name) / flash_pattern(name) / lcd.glyph(0, [rows]) / mon.write(name) = the run-time value of a variable; at module level a 'retune' pattern: a constant is re-assigned and then used in the FIRST assignment of another module-level name, which is then printed - the static-initialiser vs run-time-assignment split; a fifth of the programs additionally use tuple assignment, oracle only) under if, while, for and - every fourth program - the sketch's main loop `while True:` run 1-3 passes; 80 % generated inside the guard; every second guarded program is generated for the FLOW guard: tracked constants are re-assigned / appended inside branches and loop bodies, if / elif / else chains of 1-3 branches where 60 % of the branches with later siblings re-assign a tracked constant and the later siblings fold it (len / glyph row) from the snapshot, loop bodies that write tracked constants nothing folds, for-loop variables named like a tracked module constant followed by a re-assignment with a probe (a string formatted from the binder, and its length) in the body; a further quarter of the programs define a function whose formal arguments are mostly named like tracked module constants of the same type, with len(argument) / glyph / flash_pattern / len(module constant) / locals in the body, module statements between the def and 1-2 calls (some re-assigning a constant the body folds), arguments that differ from the same-named constants) with one seeded execution path each (branches taken or not, loops 0-3 times): real parse() IR vs model residual (folded constants; which module-level first assignments became static initialisers and which stayed in setup()), CPython run vs model reference semantics, firmware run (batched sketches, g++, mock core) vs model firmware outputs; non-trivial (B) = distinct program inside the guard that ran on both sides with >= 2 observations.",
         "samples": [{"expr": x} for x in s_a] + [{"program": x} for x in s_b],
         "distribution": dict(sorted(stats.items())),
-        "guard": "A: in_guard (no one-argument max/min), no variable named like a builtin of _SAFE_NAME_REFERENCES. B: is_fresh (ConstEnv.tblock's flag) - since the repair of the stale-fold findings only single-statement side conditions: every folded expression inside in_guard, no variable named like a builtin the evaluator interprets, a remove with a constant argument finds it in the tracked list; NOTHING about where a name is assigned / appended to / removed from (branches, loop bodies, try bodies, run-time arguments are all inside) - and def_ok for every call of a defined function (the same side conditions for prefix, body and the statements before the call; formal arguments not named like a builtin); split_ok = is_fresh and the hoisting side conditions of C03_global_split_partial. Layer C: calls_ok (the same single-statement side conditions for prefix, body and every segment of the calling sequence) - nothing about which statement re-binds a written name; outside: the calling sequence inside a function body that re-binds a written name by a plain / tuple assignment of a constant (finding F-C03-stale-after-call-in-function, never generated). A program goes to the oracle when the extracted model says so. The witnesses of the eight repaired findings (kind=fixed) are replayed first on every run: one that fails again is reported as a VIOLATION with the witness as replay.",
+        "guard": "A: in_guard (no one-argument max/min), no variable named like a builtin of _SAFE_NAME_REFERENCES. B: is_fresh (ConstEnv.tblock's flag) - since the repair of the stale-fold findings only single-statement side conditions: every folded expression inside in_guard, no variable named like a builtin the evaluator interprets, a remove with a constant argument finds it in the tracked list; NOTHING about where a name is assigned / appended to / removed from (branches, loop bodies, try bodies, run-time arguments are all inside) - and def_ok for every call of a defined function (the same side conditions for prefix, body and the statements before the call; formal arguments not named like a builtin); split_ok = is_fresh and the hoisting side conditions of C03_global_split_partial. Layer C: calls_ok (the same single-statement side conditions for prefix, body and every segment of the calling sequence) - nothing about which statement re-binds a written name, nor about the scope of the calling sequence (module level or the body of another function: F-C03-stale-after-call-in-function is repaired). A program goes to the oracle when the extracted model says so. The witnesses of the nine repaired findings (kind=fixed) are replayed first on every run: one that fails again is reported as a VIOLATION with the witness as replay.",
         "unmodelled": ["IEEE specials, float results that are not exactly representable are compared only CPython-vs-implementation (exact), not against the rational model",
                        "sensor model names and Led pins are oracle-only fold sites (real parse() vs CPython value; no Gallina function for the model-name canonicalisation); other device constructors' pins follow the same _resolve pattern and are not run",
                        "list aliasing between variables (b = a), flash_pattern / glyph with an inline literal containing names (ast.literal_eval path) in the environment model",
                        "len(name) INSIDE a right-hand side / append / remove argument is folded by the real translation (_to_c_expr); the model keeps those expressions symbolic - inside is_fresh the environment agrees with the run-time state at every program point (C03_env_agrees), so the folded length is the run-time length (C03_literal_length_sound); the model-vs-real firmware tie is skipped for programs outside the guard that contain one",
-                       "calls of a writer function from INSIDE a block (main loop, if, for body), two writer functions, a writer with a parameter: oracle only (firmware vs CPython), the Gallina call model (Lang/ConstCall.v) has one parameterless call-free writer called between top-level segments of the calling scope; recursion, writers that return values feeding fold sites, Button on_click callbacks as writers are not generated; sleep(name) is not a fold site of the environment (C03_namefree_closed: only name-free arguments fold) and is not observed in layer C",
+                       "calls of a writer function from INSIDE a block (main loop, if, for body), two writer functions, a writer with a parameter, a writer defined after the function that calls it, reached through a third function, or recursive: oracle only (firmware vs CPython), the Gallina call model (Lang/ConstCall.v) has one parameterless call-free writer called between top-level segments of the calling scope (module level or one function body); writers that return values feeding fold sites, Button on_click callbacks as writers are not generated; sleep(name) is not a fold site of the environment (C03_namefree_closed: only name-free arguments fold) and is not observed in layer C",
                        "tuple assignment: the model has the temporaries form (Lang/ConstTuple.v, proved simultaneous); where all targets are new at module level the real transpiler declares the names one by one without temporaries and the harness sends single assignments (tie: globals / top-level assignments / folded constants); tuple assignment of list VALUES (aliasing) and targets that are partly new at module level (setup()-local declarations: C01/C06) are not generated",
                        "try / except: modelled as a two-way branch whose body is taken (a body that raises nothing); handlers that actually run (exceptions at run time), finally / else clauses, typed handlers are outside",
                        "IR nodes other than LedFlashPattern that hold lists (LCDGlyph.bitmap is built entry by entry from a freshly evaluated list and cannot alias the environment: names bound to lists do not evaluate) - covered by reading the real IR after parse() in the correspondence, not by Lang/ConstNodes.v",
